@@ -33,6 +33,9 @@ var reviewedDeleters = map[string]string{
 }
 
 func runC07(p *Prog, r *Report) {
+	if want("C07.17") {
+		ruleLegacyNameFallback(p, r, "C07.17")
+	}
 	if want("C07.16") {
 		// handles obtained on tables and blocks are released on every path: a removed table's file can go
 		ruleAcquiredHandlesSettled(p, r, "C07.16")
